@@ -1,6 +1,7 @@
 import S3V.Props.C10Policy
 import S3V.Thm.SigV4Calendar
 import S3V.Thm.DtoTimestampText
+import S3V.Thm.DtoTimestamp
 /-!
 # The two readers of the policy's `expiration` agree on the strict form
 
@@ -135,7 +136,7 @@ theorem parseRfc3339_shape (y0 y1 y2 y3 m0 m1 d0 d1 sep h0 h1 mi0 mi1 s0 s1 : UI
     (hs0 : isDigit s0 = true) (hs1 : isDigit s1 = true)
     (hS : PostPolicy.decVal [s0, s1] < 60)
     (hfrac : parseSubsec tail = some (nanos, [90])) :
-    parseRfc3339 (y0 :: y1 :: y2 :: y3 :: 45 :: m0 :: m1 :: 45 :: d0 :: d1 :: sep :: h0 :: h1 :: 58 :: mi0 :: mi1 ::
+    parseRfc3339Time (y0 :: y1 :: y2 :: y3 :: 45 :: m0 :: m1 :: 45 :: d0 :: d1 :: sep :: h0 :: h1 :: 58 :: mi0 :: mi1 ::
         58 :: s0 :: s1 :: tail) =
       if validFields (PostPolicy.decVal [y0, y1, y2, y3] : Nat) (PostPolicy.decVal [m0, m1]) (PostPolicy.decVal [d0, d1])
           (PostPolicy.decVal [h0, h1]) (PostPolicy.decVal [mi0, mi1]) (PostPolicy.decVal [s0, s1])
@@ -143,7 +144,7 @@ theorem parseRfc3339_shape (y0 y1 y2 y3 m0 m1 d0 d1 sep h0 h1 mi0 mi1 s0 s1 : UI
           (PostPolicy.decVal [d0, d1]) (PostPolicy.decVal [h0, h1]) (PostPolicy.decVal [mi0, mi1])
           (PostPolicy.decVal [s0, s1]) - 0, nanos, 0⟩
       else none := by
-  unfold parseRfc3339
+  unfold parseRfc3339Time
   simp only [exactlyDigits4 _ _ _ _ _ hy0 hy1 hy2 hy3, exactlyDigits2 _ _ _ hm0 hm1, exactlyDigits2 _ _ _ hd0 hd1,
     exactlyDigits2 _ _ _ hh0 hh1, exactlyDigits2 _ _ _ hmi0 hmi1, exactlyDigits2 _ _ _ hs0 hs1, expectChar_cons,
     hfrac, parseOffset_Z, bind, Option.bind]
@@ -191,8 +192,12 @@ theorem parseInstant_implies_parseRfc3339' {e : Bytes} {u : Int} (h : PostPolicy
         unfold SigV4Spec.validCivil at hv
         simp only [Bool.and_eq_true, decide_eq_true_eq] at hv
         have hvf := validFields_of_validCivil _ _ _ _ _ _ (decVal4_le y0 y1 y2 y3 hy0 hy1 hy2 hy3) hvalid
-        rw [parseRfc3339_shape y0 y1 y2 y3 m0 m1 d0 d1 84 h0 h1 mi0 mi1 s0 s1 rest n hy0 hy1 hy2 hy3 hm0 hm1 hd0 hd1
-          hh0 hh1 hmi0 hmi1 hs0 hs1 hv.2 hn, if_pos hvf]
+        have htime := parseRfc3339_shape y0 y1 y2 y3 m0 m1 d0 d1 84 h0 h1 mi0 mi1 s0 s1 rest n hy0 hy1 hy2 hy3 hm0 hm1
+          hd0 hd1 hh0 hh1 hmi0 hmi1 hs0 hs1 hv.2 hn
+        rw [if_pos hvf] at htime
+        -- the year check of 62f4e8c: a UTC text of the years 0000 … 9999 denotes an instant of those years
+        have hrange := localSeconds_range_year0 _ _ _ _ _ _ (Int.natCast_nonneg _) hvf
+        rw [parseRfc3339_of_time htime, if_pos (by simpa only [Int.sub_zero] using hrange)]
         refine ⟨_, rfl, ?_, rfl⟩
         simp only [Int.sub_zero]
         rw [localSeconds_eq_civilToUnix _ _ _ _ _ _ hv.1.1.1.1.1.1 hv.1.1.1.1.1.2 hv.1.1.1.1.2]
